@@ -149,6 +149,7 @@ pub fn make_app(cfg: &Cfg, mismatch: bool) -> App {
         .replicate_once::<O>()
         .replicate_periodic::<P>(cfg.period.max(1))
         .replicate::<S>()
+        .replicate::<Z>()
         .replicate::<R>()
         .replicate::<ChildOf>();
     if cfg.bundle {
